@@ -314,3 +314,15 @@ MANIFEST_TEXT["C13"]["text"] = MANIFEST_TEXT["C13"]["text"].replace(
     "a tree rebuilt in another insertion order has the same content (restored_same_content);",
     "a tree rebuilt in another insertion order is the same tree, hence has the same root (restored_same_tree, from addAll_perm) and the same content (restored_same_content);")
 MANIFEST_TEXT["C13"]["note"] = "gob's byte layer is not modelled (token-level model)."
+MANIFEST_TEXT["C06"]["text"] = MANIFEST_TEXT["C06"]["text"] + (
+    " Completeness is proved too (issue_then_bind): a claim produced by ToCoreClaim from a credential with any options (nonce/version within uint64/uint32) or with none passes the binding check of "
+    "that credential - the options rebuilt from the claim's own flags re-derive exactly the same claim. The harness additionally verifies each modification made in place on an already verified "
+    "credential object and on a by-value copy of it.")
+MANIFEST_TEXT["C06"]["note"] = "The JSON-LD merklization that produces the root and the field encodings is an input of the claim model (tied by C01-C05)."
+MANIFEST_TEXT["C01"]["text"] = MANIFEST_TEXT["C01"]["text"].replace(
+    "a subject referenced twice in its graph",
+    "sibling indices have a closed form (index_exact: a key ends with the quad's predicate when its (subject, predicate, graph) key occurs once, else with the number of earlier literal/IRI quads of "
+    "that key; sibling_indices_consecutive: the indices of one key are exactly 0..n-1 in quad order; key_shape: everything before the last predicate comes from the parent chain); a subject "
+    "referenced twice in its graph")
+MANIFEST_TEXT["C01"]["note"] = ("Document -> dataset (json-gold) is not modelled; it is covered by the facts predicate against the abstract document. The parent-chain part of a key (entries_pred_chain) "
+                                "is covered by the correspondence + direct predicate, not by a theorem.")
